@@ -568,7 +568,7 @@ class BLOBType(DataType):
     minbytes = Property('minimum number of bytes', IntRange(0), extname='minbytes',
                         default=0)
     maxbytes = Property('maximum number of bytes', IntRange(0), extname='maxbytes',
-                        mandatory=True)
+                        mandatory=True, export='always')
 
     def __init__(self, minbytes=0, maxbytes=None):
         super().__init__()
